@@ -8,6 +8,7 @@ import (
 	"fmt"
 	"github.com/fullstorydev/grpchan"
 	"google.golang.org/grpc"
+	"google.golang.org/grpc/status"
 	"io"
 	"math/rand"
 	"mime"
@@ -550,6 +551,67 @@ func checkC11(e *core.Env) {
 			e.Violate(fmt.Sprintf("server/unary/overlapping-replies/json=%v", js), fmt.Sprintf("two calls overlapped (the first one's reply was being written when the second was served): the first client's reply does not decode to the first handler's response (decode error: %v, payload starts %.20q)", derr, got.GetPayload()), w)
 		}
 	})
+
+	// servers configured with an error renderer of their own (one that leaves the reply alone, one that answers
+	// 200 with an envelope): requests that must be rejected before any application code runs are still rejected
+	// with their 4xx status, and neither the handler nor the renderer is asked
+	{
+		rendererCalls := 0
+		nothing := httpgrpc.ErrorRenderer(func(context.Context, *status.Status, http.ResponseWriter) { rendererCalls++ })
+		envelope := httpgrpc.ErrorRenderer(func(_ context.Context, st *status.Status, w http.ResponseWriter) {
+			rendererCalls++
+			w.Header().Set("Content-Type", "application/json")
+			w.WriteHeader(200)
+			fmt.Fprintf(w, "{\"error\":%q}", st.Message())
+		})
+		for ri, ropt := range []httpgrpc.ServerOption{nothing, envelope} {
+			rsvc := &Service{}
+			rsrv := httpgrpc.NewServer(ropt)
+			rsrv.RegisterService(&ScriptedDesc, rsvc)
+			for _, kind := range []Kind{Unary, ServerStream} {
+				for vi, variant := range []string{"bad-bin-header", "unsupported-content-type", "get"} {
+					sc := &Script{Kind: kind, UnaryReq: &tpb.Message{Payload: []byte("q")}, Resp: &tpb.Message{Payload: []byte("r")}}
+					if kind != Unary {
+						sc.Handler = []Op{{Op: "recv"}}
+					}
+					run := rsvc.NewRun(sc, "http-direct")
+					body, _ := proto.Marshal(sc.UnaryReq)
+					ct := httpgrpc.UnaryRpcContentType_V1
+					if kind != Unary {
+						body, ct = streamBody(sc.UnaryReq), httpgrpc.StreamRpcContentType_V1
+					}
+					method, want := "POST", 400
+					hr := httptest.NewRequest("POST", kind.Method(), bytes.NewReader(body))
+					hr.Header.Set("X-Verif-Run", run.ID)
+					switch variant {
+					case "bad-bin-header":
+						hr.Header["X-Blob-Bin"] = []string{"!!not base64!!"}
+					case "unsupported-content-type":
+						ct, want = "text/plain", 415
+					case "get":
+						method, want = "GET", 405
+					}
+					hr.Method = method
+					hr.Header.Set("Content-Type", ct)
+					rec := httptest.NewRecorder()
+					before := rendererCalls
+					pan := guard(func() { rsrv.ServeHTTP(rec, hr) })
+					rsvc.Forget(run)
+					e.Eval(fmt.Sprintf("custom-renderer|%d|%s|%s", ri, kind, variant), true)
+					w := map[string]any{"renderer": []string{"writes nothing", "200 envelope"}[ri], "kind": kind.String(), "variant": variant, "http_status": rec.Code, "handler_invocations": run.hStarted.Load(), "renderer_calls": rendererCalls - before}
+					switch {
+					case pan != "":
+						e.Violate("server/"+kindClass(kind)+"/custom-renderer/panic", trunc(pan, 300), w)
+					case run.hStarted.Load() != 0:
+						e.Violate("server/"+kindClass(kind)+"/handler-ran-for-invalid-request", fmt.Sprintf("%s: the handler ran (HTTP %d)", variant, rec.Code), w)
+					case rec.Code != want:
+						e.Violate("server/"+kindClass(kind)+"/custom-renderer/wrong-rejection", fmt.Sprintf("a server with an error renderer of its own answered a request that must be rejected with %d (%s) with HTTP %d", want, variant, rec.Code), w)
+					}
+					_ = vi
+				}
+			}
+		}
+	}
 
 	// a service whose messages are of the older generated kind (plain structs with protobuf tags and the three
 	// v1 methods; many code bases still have them): JSON requests are handled like protobuf ones
